@@ -574,14 +574,19 @@ def execute(plan):
     # reduction (the integral of a field is summed in another order when it is accumulated per sub-grid)
     exact = gspec["cls"] == "UnitGrid" and "integral" not in str(plan.get("eq", {}).get("rhs", ""))
 
+    # absolute tolerance from the size of the terms that are summed (field values of order one divided by dx or dx**2),
+    # not from the result, which may cancel to zero
+    inv_dx = 1 / np.asarray(grid.discretization, dtype=float)
+    term_scale = max(1.0, float(np.max(inv_dx)), float(np.max(inv_dx)) ** 2)
+
     def same(a, b):
         a, b = np.asarray(a), np.asarray(b)
         if a.shape != b.shape:
             return False
         if exact:
             return bool(np.array_equal(a, b, equal_nan=True))
-        scale = float(np.nanmax(np.abs(b))) if b.size else 0.0
-        return bool(np.allclose(a, b, rtol=1e-10, atol=1e-11 * max(scale, 1e-300), equal_nan=True))
+        scale = max(float(np.nanmax(np.abs(b))) if b.size else 0.0, term_scale)
+        return bool(np.allclose(a, b, rtol=1e-10, atol=1e-11 * scale, equal_nan=True))
 
     if plan["script"] == "solve":
         if r0 is None:
